@@ -4,8 +4,8 @@ from . import core, refcodec as R
 
 
 def vrec(b):
-    """value bytes -> logged representation (same rule as the driver: hex up to 96 bytes, else length + fnv64)"""
-    if len(b) <= 96:
+    """value bytes -> logged representation (same rule as the driver: hex up to 1024 bytes, else length + fnv64)"""
+    if len(b) <= 1024:
         return list(b)
     h = "%016x" % fnv64(b)
     return [-1, len(b)] + [int(h[i:i + 4], 16) for i in range(0, 16, 4)]
